@@ -31,7 +31,8 @@ PROP = dict(
                            "history:empty-data-set": 1000, "state:polyline-nothing-visible": 5000, "monitor:range-history-steps": 40000,
                            "range-history:nothing-visible": 5000, "linepart::set_cut/set_trim": 2000, "fraction:accepted": 500, "fraction:refused": 500,
                            "transform3::part (log limit)": 50000, "transform3::part (linear limit)": 20000,
-                           "monitor:log-cut-fraction": 10000, "monitor:log-trim-fraction": 10000}),
+                           "monitor:log-cut-fraction": 10000, "monitor:log-trim-fraction": 10000,
+                           "monitor:cut-helper-points": 10000, "monitor:trim-helper-points": 10000, "transform::apply (library template)": 50000}),
               ],
         rule=("case = (a) one class sequence (exhaustive by index) instantiated in 5 scalings, or (b) one PRNG sequence of 1..300 reals "
               "with a PRNG range, or (c) one data set with a run of 65533..65538 points of one kind plus head/tail classes, or several runs "
